@@ -60,7 +60,7 @@ def tlc(module, cfg, cwd=SPEC, workers=1, env=None, extra=(), timeout=3600, heap
     e = dict(os.environ)
     # a large thread stack: the rule-granularity specifications recurse deeply (Ensure/RunRule), and with the default
     # stack a StackOverflowError appeared in about one run of three, depending on what the JIT had compiled
-    e["JAVA_TOOL_OPTIONS"] = ((heap or "") + " -Xss64m").strip()
+    e["JAVA_TOOL_OPTIONS"] = ((heap or "") + " -Xss64m -XX:-UseGCOverheadLimit").strip()      # (deep Ensure recursion; GC starved on a loaded machine is not "out of memory")
     if env: e.update(env)
     try:
         r = subprocess.run(cmd, cwd=cwd, env=e, capture_output=True, text=True, timeout=timeout)
